@@ -407,6 +407,13 @@ def state_phases(ctx, thorough):
         for sched in multiset_perms([2, 2]):
             out.append(mkc(backend, old, [[6, 1, 1, x], [4, 2, 2, x]], sched, 2, [x], "state:disconnect||connect:exhaustive"))
             out.append(mkc(backend, old, [[5, 1, 1, x], [4, 2, 2, x]], sched, 2, [x], "state:heartbeat||connect:exhaustive"))
+        # the heartbeat's REBUILD path: a late heartbeat on the old connection (1,1) while the record is only the tombstone of a
+        # matched delete (login (2,2) closed) or truly absent, racing the login (2,3): a login at EVERY storage call of the rebuild
+        for sched in multiset_perms([3, 2]):
+            out.append(mkc(backend, [[4, 1, 1, x], [4, 2, 2, x], [6, 2, 2, x]], [[5, 1, 1, x], [4, 2, 3, x]], sched, 2, [x],
+                           "state:rebuild-over-tombstone||connect:exhaustive"))
+        for sched in multiset_perms([2, 2]):
+            out.append(mkc(backend, [], [[5, 1, 1, x], [4, 2, 3, x]], sched, 2, [x], "state:rebuild-absent||connect:exhaustive"))
     perms = multiset_perms([2, 2, 2])
     for sched in (perms if thorough else rng.sample(perms, 30)):
         out.append(mkc(rng.choice(["memory", "redis"]), old, [[5, 1, 1, x], [6, 1, 1, x], [4, 2, 2, x]], sched, 2, [x], "state:heartbeat||cleanup||connect"))
